@@ -21,11 +21,14 @@ theorem computeCache_some (x : Ext K) (o : XOps K) (Yw : Mat n s K) (eps : K) (A
   unfold computeCache at h
   by_cases hf : (A.all o.isFinite) = true
   · simp only [hf, if_true] at h
-    by_cases hneg : eps < 0
-    · simp [solveTrunc, hneg] at h
-    · simp only [solveTrunc, hneg, if_false] at h
-      cases h
-      exact ⟨not_lt.mp hneg, rfl, rfl, rfl⟩
+    by_cases hs : (x.svd n m A).sigma.all o.isFinite = true
+    · simp only [hs, if_true] at h
+      by_cases hneg : eps < 0
+      · simp [solveTrunc, hneg] at h
+      · simp only [solveTrunc, hneg, if_false] at h
+        cases h
+        exact ⟨not_lt.mp hneg, rfl, rfl, rfl⟩
+    · simp [hs] at h
   · simp [hf] at h
 
 /-- **c01_normal_eq**: whenever coefficients are present after `set_params α`, they satisfy the
